@@ -522,6 +522,26 @@ impl<T> std::ops::DerefMut for Placed<T> {
     }
 }
 
+// `Clone` likewise (the value `JitterRng::new()` returns is of an opaque type that is not `Clone`
+// today; if it becomes `Clone`, its clones are held to what C16 says about clones).
+pub struct CloneProbe<'a, T>(pub &'a T);
+pub trait CloneYes<T> {
+    fn try_clone(&self) -> Option<T>;
+}
+impl<'a, T: Clone> CloneYes<T> for CloneProbe<'a, T> {
+    fn try_clone(&self) -> Option<T> {
+        Some(self.0.clone())
+    }
+}
+pub trait CloneNo<T> {
+    fn try_clone(&self) -> Option<T>;
+}
+impl<'a, T> CloneNo<T> for &CloneProbe<'a, T> {
+    fn try_clone(&self) -> Option<T> {
+        None
+    }
+}
+
 // `Default` is probed the same way: a type that gains a `Default` implementation has gained a
 // constructor, and it is held to what the properties say about constructors.
 pub struct DefProbe<T>(pub std::marker::PhantomData<T>);
